@@ -26,6 +26,8 @@ package server
 //@ func (*Server).CommandPerms (s, command) (result)
 //@   props C05 C17
 //@   assigns lock(&s.mu)
+//@   ensures levels_of_that_command: [C05] s.handlers != nil && has(s.handlers, command) ==> ref(result) == ref(s.handlers[command].perms) && off(result) == off(s.handlers[command].perms) && len(result) == len(s.handlers[command].perms)
+//@   ensures unknown_command_has_no_levels: [C05] !(s.handlers != nil && has(s.handlers, command)) ==> len(result) == 0
 //@   ensures lock_balanced: held(&s.mu) == old(held(&s.mu)) && rcount(&s.mu) == old(rcount(&s.mu))
 
 //@ func (*Server).authorized (s, realCmd, peerAddr, user) (result)
@@ -33,13 +35,14 @@ package server
 //@   requires given: s.Authorizer != nil
 //@   assigns lock(&s.mu)
 //@   ensures some_level_accepts: [C05] result ==> exists p :: Authorizer(s.Authorizer, p, peerAddr, user)
+//@   ensures a_level_of_this_command_accepts: [C05] result ==> s.handlers != nil && has(s.handlers, realCmd) && exists k :: 0 <= k && k < len(s.handlers[realCmd].perms) && Authorizer(s.Authorizer, s.handlers[realCmd].perms[k], peerAddr, user)
 //@   ensures lock_balanced: held(&s.mu) == old(held(&s.mu)) && rcount(&s.mu) == old(rcount(&s.mu))
 
 //@ func (*Server).sessionSatisfies (s, realCmd, peerAddr, neg) (err)
 //@   props C05
 //@   assigns lock(&s.mu)
 //@   ensures level_met: [C05] err == nil ==> neg != nil && levelOK(s, realCmd, neg.Authentication, neg.Encryption)
-//@   ensures authorized_now: [C05] err == nil && s.Authorizer != nil ==> exists p :: Authorizer(s.Authorizer, p, peerAddr, neg.User)
+//@   ensures authorized_now: [C05] err == nil && s.Authorizer != nil ==> s.handlers != nil && has(s.handlers, realCmd) && exists k :: 0 <= k && k < len(s.handlers[realCmd].perms) && Authorizer(s.Authorizer, s.handlers[realCmd].perms[k], peerAddr, neg.User)
 //@   ensures lock_balanced: held(&s.mu) == old(held(&s.mu)) && rcount(&s.mu) == old(rcount(&s.mu))
 
 // a handler is application code: anything may happen inside it (assumed only not to take the server's registry lock)
@@ -49,6 +52,7 @@ package server
 //@ func (*Server).lookup (s, command) (h, ok)
 //@   props C05
 //@   assigns lock(&s.mu)
+//@   ensures registered_handler: [C05] ok == (s.handlers != nil && has(s.handlers, command)) && (ok ==> h.raw == s.handlers[command].raw && h.fn == s.handlers[command].fn && ref(h.perms) == ref(s.handlers[command].perms) && len(h.perms) == len(s.handlers[command].perms))
 //@   ensures lock_balanced: held(&s.mu) == old(held(&s.mu)) && rcount(&s.mu) == old(rcount(&s.mu))
 
 //@ func (*Server).run (s, ctx, h, c, conn) (err)
@@ -59,6 +63,18 @@ package server
 //@   props C05
 //@   requires given: conn != nil
 //@   loop 1 invariant session: neg != nil
-//@   assert before call funcfield:server.registeredHandler.fn authenticated_handler_on_adequate_session: [C05] !h.raw && neg != nil && levelOK(s, realCmd, neg.Authentication, neg.Encryption) && (s.Authorizer != nil ==> exists p :: Authorizer(s.Authorizer, p, arg1.RemoteAddr, neg.User))
+//@   assert before call funcfield:server.registeredHandler.fn authenticated_handler_on_adequate_session: [C05] !h.raw && neg != nil && levelOK(s, realCmd, neg.Authentication, neg.Encryption) && (s.Authorizer != nil ==> exists k :: 0 <= k && k < len(s.handlers[realCmd].perms) && Authorizer(s.Authorizer, s.handlers[realCmd].perms[k], arg1.RemoteAddr, neg.User))
+//@   assert before call funcfield:server.registeredHandler.fn the_handler_registered_for_this_command: [C05] s.handlers != nil && has(s.handlers, realCmd) && !s.handlers[realCmd].raw && arg1.Command == realCmd && arg1.Negotiation == neg
 //@   assert before call Server).run #1 raw_handler_on_raw_path: [C05] arg2.raw
 //@   assert before call Server).sessionSatisfies #1 checks_this_command_and_session: [C05] arg1 == realCmd && arg3 == neg
+
+//@ func (*Server).Handle (s, command, fn, perms)
+//@   props C05
+//@   requires registry: s.handlers != nil
+//@   assigns lock(&s.mu), mapof(s.handlers)
+//@   ensures registered_as_authenticated: [C05] has(s.handlers, command) && !s.handlers[command].raw && s.handlers[command].fn == fn && ref(s.handlers[command].perms) == ref(perms) && len(s.handlers[command].perms) == len(perms)
+//@ func (*Server).HandleRaw (s, command, fn)
+//@   props C05
+//@   requires registry: s.handlers != nil
+//@   assigns lock(&s.mu), mapof(s.handlers)
+//@   ensures registered_as_raw: [C05] has(s.handlers, command) && s.handlers[command].raw && s.handlers[command].fn == fn
